@@ -123,6 +123,10 @@ def prepare_scratch(unit, scratch):
     byfile = {}
     for e in unit.get('loop_contracts', []):
         byfile.setdefault(e['file'], []).append(e)
+    # in-body assertions (unit key `asserts`: [{file, function, anchor, assert, tag}]): inserted mechanically like loop clauses; a
+    # missing anchor is an extraction failure (UNDECIDED), never a silently dropped obligation
+    for e in unit.get('asserts', []):
+        byfile.setdefault(e['file'], []).append(e)
     # reachability probes: a probe whose anchor no longer matches (the code around it changed) is left out --
     # the proof run still decides the obligations; the cover run then reports the missing probe (UNDECIDED
     # vacuity), never a violation and never a silently green unit
@@ -172,6 +176,21 @@ def compile_unit(unit, scratch, cover=False):
 
 def instrument(unit, scratch, gb, cover=False):
     out = os.path.join(scratch, 'cov2.gb' if cover else 'u2.gb')
+    if unit.get('pre_unwind'):
+        # bounded units that close the inner loops by contract but unwind an outer (list) walk: --dfcc --apply-loop-contracts gives
+        # a loop WITHOUT contract an empty write set (spurious 'not assignable' failures), so the walk is unwound by goto-instrument
+        # BEFORE the contract instrumentation (with unwinding assertions); each copy of the inner loop keeps its loop contract.
+        # Entries as in `unwindset`: {function, line_match | index, n}.
+        try:
+            pre = resolve_unwindset({'unwindset': unit['pre_unwind']}, scratch, gb)
+        except looppatch.ExtractionError as e:
+            return None, 'pre_unwind: %s' % e, ['goto-instrument --unwindset (pre_unwind)']
+        gbp = os.path.join(scratch, 'cov_pre.gb' if cover else 'u_pre.gb')
+        pcmd = ['goto-instrument', '--unwindset', ','.join(pre), '--unwinding-assertions', gb, gbp]
+        rcp, txtp, _ = run(pcmd, scratch, 600, mem_gb=16)
+        if rcp != 0 or not os.path.exists(gbp):
+            return None, 'pre_unwind failed: ' + txtp[-800:], pcmd
+        gb = gbp
     cmd = ['goto-instrument', '--dfcc', unit['harness']]
     for f in ([unit['enforce']] if isinstance(unit.get('enforce'), str) else unit.get('enforce', [])):
         # recursive functions: CBMC's --enforce-contract-rec lets the recursive call be replaced by the contract
